@@ -97,11 +97,12 @@ fn class(pair: &Pair, m: &Mismatch, _obs: &Value) -> String {
 pub fn run(tier: Tier) -> i32 {
     let started = std::time::Instant::now();
     let (h, d, k, a, secs) = match tier {
-        Tier::Quick => (3, 2, 2, 10, 45),
+        Tier::Quick => (3, 2, 1, 4, 55),
         Tier::Thorough => (4, 3, 3, 16, 1800),
     };
     // only programs that define at least one of the pure pool functions
-    let set: Vec<ProgSrc> = program_set(k, a, 0);
+    let mut set: Vec<ProgSrc> = pause_programs();
+    set.extend(program_set(k, a, 0));
     let ctl = RunCtl::new(secs);
     let spec = PairSpec {
         id: ID,
@@ -118,22 +119,29 @@ pub fn run(tier: Tier) -> i32 {
         class: &class,
     };
     let su = Setup { bind_externals: Some(true), allow_fallbacks: true, handler: false, observers: vec![], seed: None };
-    let (stats, done) = par_cases(set.len(), &ctl, |i, st| {
+    const SHARDS: usize = 8;
+    let (stats, done) = par_cases(set.len() * SHARDS, &ctl, |n, st| {
+        let (i, shard) = (n / SHARDS, n % SHARDS);
         if let Some(p) = set[i].load() {
             if p.functions.is_empty() {
-                st.inc("programs_without_functions");
+                if shard == 0 {
+                    st.inc("programs_without_functions");
+                }
                 return;
             }
             let mut su = su.clone();
             if let Some(g) = p.globals.first() {
                 su.observers.push((0, g.clone()));
             }
-            run_pairs(&p, &su, &spec, st);
-            st.inc("programs");
-        } else {
+            run_pairs_sharded(&p, &su, &spec, st, shard, SHARDS);
+            if shard == 0 {
+                st.inc("programs");
+            }
+        } else if shard == 0 {
             st.inc("rejected_by_compiler");
         }
     });
+    let done = done / SHARDS;
     let extra = mc_extras(
         &stats,
         json!({"history_depth": h, "lockstep_depth": d, "segment_family": [k, a], "programs": set.len(), "programs_done": done, "functions": pool::pure_function_calls().iter().map(|(n, _, _)| *n).collect::<Vec<_>>()}),
